@@ -49,8 +49,8 @@ def main():
         text = open(demo).read()
         import re as _re
         # some demos assert that the package is imported from their own scratch worktree: point that path at the copies
-        rc0, o0 = run([PY, "-c", _re.sub(r"/tmp/seed/C\d+-wt", clean, text)], env={"PYTHONPATH": clean}, cwd=work)
-        rc1, o1 = run([PY, "-c", _re.sub(r"/tmp/seed/C\d+-wt", mut, text)], env={"PYTHONPATH": mut}, cwd=work)
+        rc0, o0 = run([PY, "-c", _re.sub(r"/tmp/seed/C\d+-wt|/tmp/seed5/wt\d+", clean, text)], env={"PYTHONPATH": clean}, cwd=work)
+        rc1, o1 = run([PY, "-c", _re.sub(r"/tmp/seed/C\d+-wt|/tmp/seed5/wt\d+", mut, text)], env={"PYTHONPATH": mut}, cwd=work)
         meta["demo_passes_without"] = rc0 == 0
         meta["demo_fails_with"] = rc1 != 0
         meta["demo_output_with"] = o1[-600:]
